@@ -377,6 +377,23 @@ def packet_write(text):
     out['counts'] = list(m.groups())
     return out
 
+# ------------------------------------------------------------------ packet.rs: MessageWriter (positions relative to the message)
+def message_writer(text):
+    W = 'packet.rs: impl Write / Seek for MessageWriter'
+    wi = block_after(text, r'impl<T:Write>Write for MessageWriter<\'_,T>', W)
+    w = fn_body(wi, 'write', W)
+    f = fn_body(wi, 'flush', W)
+    si = block_after(text, r'impl<T:Seek>Seek for MessageWriter<\'_,T>', W)
+    sk = fn_body(si, 'seek', W)
+    out = []
+    out.append('forward' if w == 'self.inner.write(buf)' else refuse(W, f"write: {w[:120]}"))
+    out.append('forward' if f == 'self.inner.flush()' else refuse(W, f"flush: {f[:120]}"))
+    m = re.match(r'let pos=match pos\{std::io::SeekFrom::Start\((\w+)\)=>std::io::SeekFrom::Start\(self\.start\+(\w+)\),other=>other,\};'
+                 r'Ok\(self\.inner\.seek\(pos\)\?\.saturating_sub\(self\.start\)\)$', sk)
+    if not m or m.group(1) != m.group(2): refuse(W, f"seek: {sk[:200]}")
+    out.append('start-plus-offset/minus-start')
+    return out
+
 # ------------------------------------------------------------------ simple-mdns: ExpirationInfo::new
 def expiration(text):
     W = 'simple-mdns/src/resource_record_manager.rs: ExpirationInfo::new'
@@ -534,6 +551,7 @@ def generate(repo):
     dp = attempt('rdata.parse', need('m', rdata_parse))
     pp = attempt('packet.parse', need('p', packet_parse))
     pw = attempt('packet.write', need('p', packet_write))
+    mw = attempt('packet.message_writer', need('p', message_writer))
     ex = attempt('mdns.expiration', need('mdns', expiration))
     owned = []
     dns = os.path.join(repo, 'simple-dns/src/dns')
@@ -627,6 +645,9 @@ def generate(repo):
           "def packetWriteOrder : Option (List String) := " + ('none' if pw is None else f"some {strs(pw['write_to'])}"),
           "def packetWriteCompressedOrder : Option (List String) := " + ('none' if pw is None else f"some {strs(pw['write_compressed_to'])}"),
           "def packetHeaderCounts : Option (List String) := " + ('none' if pw is None else f"some {strs(pw['counts'])}"),
+          "/-- `MessageWriter` (the writer `write_compressed_to` wraps its output in): `write` and `flush` forward to the inner writer,",
+          "`seek(Start(o))` goes to start + o and every seek answers relative to start -/",
+          "def messageWriter : Option (List String) := " + ('none' if mw is None else f"some {strs(mw)}"),
           "", "/-- simple-mdns `ExpirationInfo::new`: refresh after ttl / shortDiv below shortBelow seconds, else ttl / longDiv * longMul -/",
           f"def expShortBelow : Option Nat := {optn(g(ex, 'shortBelow'))}",
           f"def expShortDiv : Option Nat := {optn(g(ex, 'shortDiv'))}",
